@@ -38,7 +38,7 @@ def cases(tier, seed, shard, nshards):
     n = (4000 if tier == "quick" else 80000) // nshards
     for i in range(n):
         path = faults.PATHS[i % len(faults.PATHS)]
-        case = faults.make_case(rng, path)
+        case = faults.make_case(rng, path, readd=True)
         prog = case["prog"]
         if path != "kbint-sched" and rng.random() < 0.25:
             prog["runner"] = "ado"        # the asyncio entry point must give every doer the same lifecycle
@@ -102,61 +102,75 @@ def judge(run, ctx, case, extra):
         return None
     for did, evs in life.items():
         ctx.count("doers_judged")
-        before = [(i, k, info) for (i, k, info) in evs if i < end]
-        after = [(i, k, info) for (i, k, info) in evs if i > end]
-        word = [k for (_, k, _) in before]
+        before_all = [(i, k, info) for (i, k, info) in evs if i < end]
+        after_all = [(i, k, info) for (i, k, info) in evs if i > end]
         kind = run.specs[did]["kind"]
         st = run.state[did]
-        # -- shape -------------------------------------------------------------------
-        key = None
-        msg = None
-        if word.count("enter") > 1:
-            key, msg = "entered-twice", f"{did} entered {word.count('enter')}x"
-        elif not word or word[0] != "enter":
-            key, msg = "event-before-enter", f"{did}: {word[:4]}"
-        elif word.count("exit") > 1:
-            key, msg = "exit-twice", f"{did}: {word}"
-        elif "exit" not in word:
-            late = [k for (_, k, _) in after]
-            if case["path"] == "extend-enter-raise" and did in (case.get("fault") or {}).get("entered_before_bad", []):
-                key = "extend-enter-failure-orphans-earlier-new-doers"
-            elif extra.get("fired_at") and extra["fired_at"][0] == "recur":
-                key = "kbint-between-pop-and-reappend-orphans-in-hand-doer"
-            else:
-                key = "not-exited-before-run-end"
-            msg = (f"{did} ({kind}) still not exited when do() {run.result[0]}ed; events before: {word[-4:]}, "
-                   f"after the run (garbage collection): {late}")
-        else:
-            xi = word.index("exit")
-            if xi != len(word) - 1 or after:
-                key, msg = "event-after-exit", f"{did}: {word[xi:]} + after run {[k for (_, k, _) in after]}"
-            else:
-                terms = [k for k in word if k in ("clean", "cease", "abort")]
-                body = word[1:xi]
-                if len(terms) != 1 or body[-1:] != terms or any(k != "recur" for k in body[:-1]):
-                    if not terms and (raised_kbint(run, did) or st.outcome == "kbint"):
-                        key = "kbint-in-doer:exit-without-terminal-context"
-                    elif not terms and extra.get("fired_at"):
-                        key = "kbint-in-scheduler-code-of-dodoer:exit-without-terminal-context"
-                    else:
-                        key = "malformed-lifecycle"
-                    msg = f"{did} ({kind}): {word}"
+        # a doer that was removed (force-closed) and later added again runs a second, separate lifecycle: a new enter
+        # is legitimate only after the previous lifecycle's exit; each lifecycle is judged on its own
+        segs = [[]]
+        for ev in before_all:
+            if ev[1] == "enter" and any(k == "exit" for (_, k, _) in segs[-1]):
+                segs.append([])
+            segs[-1].append(ev)
+        if len(segs) > 1:
+            ctx.count("doers_with_a_second_lifecycle_after_removal")
+        for si, before in enumerate(segs):
+            after = after_all if si == len(segs) - 1 else []
+            single = len(segs) == 1
+            word = [k for (_, k, _) in before]
+            # -- shape -------------------------------------------------------------------
+            key = None
+            msg = None
+            if word.count("enter") > 1:
+                key, msg = "entered-twice", f"{did} entered {word.count('enter')}x"
+            elif not word or word[0] != "enter":
+                key, msg = "event-before-enter", f"{did}: {word[:4]}"
+            elif word.count("exit") > 1:
+                key, msg = "exit-twice", f"{did}: {word}"
+            elif "exit" not in word:
+                late = [k for (_, k, _) in after]
+                if case["path"] == "extend-enter-raise" and did in (case.get("fault") or {}).get("entered_before_bad", []):
+                    key = "extend-enter-failure-orphans-earlier-new-doers"
+                elif extra.get("fired_at") and extra["fired_at"][0] == "recur":
+                    key = "kbint-between-pop-and-reappend-orphans-in-hand-doer"
                 else:
-                    term = terms[0]
-                    contexts.add(term)
-                    ctx.count("terminal:" + term)
-                    if st.outcome == "returned":
-                        want = "clean"
-                    elif must_abort(run, did):
-                        want = "abort"
+                    key = "not-exited-before-run-end"
+                msg = (f"{did} ({kind}) still not exited when do() {run.result[0]}ed; events before: {word[-4:]}, "
+                       f"after the run (garbage collection): {late}")
+            else:
+                xi = word.index("exit")
+                if xi != len(word) - 1 or after:
+                    key, msg = "event-after-exit", f"{did}: {word[xi:]} + after run {[k for (_, k, _) in after]}"
+                else:
+                    terms = [k for k in word if k in ("clean", "cease", "abort")]
+                    body = word[1:xi]
+                    if len(terms) != 1 or body[-1:] != terms or any(k != "recur" for k in body[:-1]):
+                        if not terms and (raised_kbint(run, did) or st.outcome == "kbint"):
+                            key = "kbint-in-doer:exit-without-terminal-context"
+                        elif not terms and extra.get("fired_at"):
+                            key = "kbint-in-scheduler-code-of-dodoer:exit-without-terminal-context"
+                        else:
+                            key = "malformed-lifecycle"
+                        msg = f"{did} ({kind}): {word}"
                     else:
-                        want = "cease"
-                    if term != want:
-                        key = f"wrong-terminal-context:{want}-expected-got-{term}"
-                        msg = f"{did} ({kind}) outcome={st.outcome}: {word}"
-        if key:
-            ok = False
-            ctx.violation(key, msg + (f" failpoint={extra}" if extra else ""), trace=tr)
+                        term = terms[0]
+                        contexts.add(term)
+                        ctx.count("terminal:" + term)
+                        if not single:
+                            want = term      # outcome bookkeeping spans lifecycles: only the shape is judged
+                        elif st.outcome == "returned":
+                            want = "clean"
+                        elif must_abort(run, did):
+                            want = "abort"
+                        else:
+                            want = "cease"
+                        if term != want:
+                            key = f"wrong-terminal-context:{want}-expected-got-{term}"
+                            msg = f"{did} ({kind}) outcome={st.outcome}: {word}"
+            if key:
+                ok = False
+                ctx.violation(key, msg + (f" failpoint={extra}" if extra else ""), trace=tr)
     return contexts if ok else None
 
 
